@@ -307,6 +307,15 @@ class Real:
             raise KeyError(name)
         delattr(s, name)
 
+    def op_new_pandas(self, path, name, file, kind="df"):
+        import pandas as pd
+        if kind == "df":
+            v = pd.DataFrame({"a": [1, 2], "b": [1.5, 2.5]}, index=pd.Index([10, 20], name="k"))
+        else:
+            v = pd.Series([3, 6, 7], index=pd.Index([1, 2, 3], name="k"), name="ser")
+        o = self.space(path) if path else self.m
+        o.new_pandas(name, file, v, file_type="excel" if file.endswith("xlsx") else "csv")
+
     def op_copy_cells(self, src, name, dst, new):
         self.space(src).cells[name].copy(self.space(dst), new)
 
@@ -662,6 +671,8 @@ def apply_ref(rm, op):
     elif k == "del_cells":
         s = rm.space(tuple(a[0]))
         del s.cells[a[1]]
+    elif k == "new_pandas":
+        pass        # (an opaque value under a name formulas never read)
     elif k == "copy_cells":
         src, name, dst, new = tuple(a[0]), a[1], tuple(a[2]), a[3]
         _copy_cells(rm, rm.space(src), name, rm.space(dst), new)
@@ -758,6 +769,6 @@ VALUE_EDIT_OPS = {"clear_at", "clear_all", "clear_all_space", "clear_all_model",
 
 EDIT_OPS = {
     "new_space", "del_space", "rename_space", "add_bases", "remove_bases", "set_formula",
-    "new_cells", "set_cells_formula", "del_cells", "rename_cells", "set_cached", "copy_cells", "copy_space",
+    "new_cells", "set_cells_formula", "del_cells", "rename_cells", "set_cached", "copy_cells", "copy_space", "new_pandas",
     "set_allow_none", "set_ref", "del_ref", "set_value", "arm", "recalc", "set_doc",
 }
